@@ -101,7 +101,13 @@ func VerifH_C20_Args(which int) {
 // explicit documented default; nil options behave as DefaultOptions().
 //   field 0 nil-vs-default, 1 SNS, 2 FilterStrength, 3 FilterType, 4 Segments, 5 Pass, 6 QMax,
 //   7 AlphaCompression, 8 AlphaFiltering, 9 AlphaQuality, 10 Segments=0, 11 Pass=0; lossless 0/1; alpha 0/1 (image has transparency).
-func VerifH_C20_Sentinel(field, lossless, alpha int) {
+func VerifH_C20_Sentinel(field, lossless, alpha int) { vSentinel(field, lossless, alpha, 0) }
+
+// VerifH_C20_SentinelRC: the same comparison for lossy encoding with rate control switched on
+// (TargetSize in 1..4000 symbolic), where QMin/QMax and Pass are actually consumed by the codec.
+func VerifH_C20_SentinelRC(field, alpha int) { vSentinel(field, 0, alpha, 1) }
+
+func vSentinel(field, lossless, alpha, rc int) {
 	vGlueInit()
 	img := vSymImage(2, 1, alpha)
 	if alpha == 1 {
@@ -118,6 +124,9 @@ func VerifH_C20_Sentinel(field, lossless, alpha int) {
 		base := vSymOptions(75, 0)
 		base.Lossless = lossless == 1
 		verifapi.Assume(vDocumentedValid(base))
+		if rc == 1 {
+			verifapi.Assume(base.TargetSize >= 1 && base.TargetSize <= 4000)
+		}
 		x, y := *base, *base
 		neg := verifapi.Int("sentinel")
 		verifapi.Assume(neg < 0)
